@@ -541,7 +541,7 @@ func (t *Dense) FBDecode(buf []byte) error {
 	}
 
 	t.strides = BorrowInts(serialized.StridesLength())
-	for i := 0; i < serialized.ShapeLength(); i++ {
+	for i := 0; i < serialized.StridesLength(); i++ {
 		t.strides[i] = int(serialized.Strides(i))
 	}
 	typ := string(serialized.Type())
